@@ -21,3 +21,53 @@ contract(UT + "most_accurate_type", props=["C13", "C12"], replay="most_accurate_
          raises={"AssertionError": "len(type_list) == 0 or any(not arith(tkind(t)) for t in type_list)"},
          ensures=[("member", "any(result == t for t in type_list)"),
                   ("widest", "all(rank(tkind(result)) >= rank(tkind(t)) for t in type_list)")])
+
+# ---- binary / unary / comparison operators (ast_to_cpp_translator.py:891-1002) ---------------------------------
+def op_is(node, name):
+    return cls_is(field(node, "op"), "ast." + name)
+
+
+def op_text(node):
+    return ("+" if op_is(node, "Add") else "-" if op_is(node, "Sub") else "*" if op_is(node, "Mult") else "/" if op_is(node, "Div") else "%")
+
+
+def known_binop(node):
+    return op_is(node, "Add") or op_is(node, "Sub") or op_is(node, "Mult") or op_is(node, "Div") or op_is(node, "Mod")
+
+
+def widest(kl, kr):
+    return kl if rank(kl) >= rank(kr) else kr
+
+
+def py_bin_kind(node, kl, kr):
+    "Python reference: / and ** are real; + - * % give the wider operand kind (bool counts as int)"
+    return "double" if (op_is(node, "Div") or op_is(node, "Pow")) else widest(kl, kr)
+
+
+def cxx_bin_kind(node, kl, kr):
+    "C++ usual arithmetic conversions on the declared kinds: the wider operand kind; % is ill-formed on a floating operand"
+    return ("double" if op_is(node, "Pow") else
+            "ill-formed" if (op_is(node, "Mod") and (kl != "int" or kr != "int")) else widest(kl, kr))
+
+
+def cxx_agrees(node, kl, kr, declared):
+    """the C++ static type of the emitted expression carries the declared (Python) value: same kind, or a floating kind that
+    widens implicitly into the declared one; an integer static type under a floating declaration truncates"""
+    return (cxx_bin_kind(node, kl, kr) != "ill-formed" and
+            (cxx_bin_kind(node, kl, kr) == declared or (cxx_bin_kind(node, kl, kr) != "int" and rank(declared) >= rank(cxx_bin_kind(node, kl, kr)))))
+
+
+BINOP_NODE = RefOf("ast.BinOp")
+contract(TR + "query_ast_visitor.visit_BinOp", props=["C13", "C09", "C02"],
+         params=dict(self=QV, node=BINOP_NODE),
+         local_sorts=dict(left=VAL, right=VAL),
+         requires=CVC_REQUIRES + [("operands", "field(node, 'left') != None and field(node, 'right') != None and field(node, 'op') != None")],
+         modifies=CVC_MODIFIES, may_raise=["Exception"], strict=False,
+         ensures=CVC_ENSURES + [
+             ("has_rep", "rep_of(node) != None and live(rep_of(node))"),
+             ("text@C13", "implies(known_binop(node), is_new(rep_of(node)) and "
+                          "expr_of(rep_of(node)) == '(' + expr_of(final_left) + op_text(node) + expr_of(final_right) + ')')"),
+             ("python_result_kind@C13", "implies(known_binop(node), kind_of(rep_of(node)) == py_bin_kind(node, kind_of(final_left), kind_of(final_right)))"),
+             ("cxx_static_type_is_declared_kind@C13,C02", "implies(known_binop(node), cxx_agrees(node, kind_of(final_left), kind_of(final_right), kind_of(rep_of(node))))"),
+             ("operands_arithmetic@C13", "implies(known_binop(node), arith(kind_of(final_left)) and arith(kind_of(final_right)))"),
+         ])
